@@ -315,8 +315,8 @@ func (e *clsEnd) startSampler() {
 			default:
 			}
 			e.observeState("sampler")
-			if i%64 == 63 {
-				time.Sleep(20 * time.Microsecond)
+			if i%8 == 7 {
+				time.Sleep(10 * time.Microsecond) // the API-boundary samples carry the rule; the sampler adds in-between points without hogging a CPU
 			} else {
 				runtime.Gosched()
 			}
@@ -649,10 +649,6 @@ func (cb *clsCallbacks) OnRemoteClose() {
 		if cb.rcHow == 2 {
 			e.doClose("inside OnRemoteClose, second call")
 		}
-		if e.sendMu.TryLock() { // this runs on the event loop: never wait for a user goroutine here
-			e.mustNotFlush("inside OnRemoteClose after Close returned", true)
-			e.sendMu.Unlock()
-		}
 		atomic.StoreInt32(&e.closedLocally, 1)
 	}
 }
@@ -746,7 +742,7 @@ func (x *clsExec) startNoise(n int) bool {
 			msg := make([]byte, msgLen)
 			for atomic.LoadInt32(&nz.stop) == 0 {
 				if atomic.LoadInt64(&sentB)-atomic.LoadInt64(&recvB) > 4096 {
-					runtime.Gosched()
+					time.Sleep(5 * time.Microsecond)
 					continue
 				}
 				nz.gate.RLock()
@@ -1037,7 +1033,7 @@ func clsRun(c *checkCtx, sc clsScenario, timing int) *clsExec {
 		p.close()
 	}()
 
-	if useNoise && !x.startNoise(2) {
+	if useNoise && !x.startNoise(1) {
 		x.inconclusive("noise streams could not be opened")
 		return x
 	}
@@ -1253,7 +1249,13 @@ func clsRun(c *checkCtx, sc clsScenario, timing int) *clsExec {
 					}
 				}
 				atomic.StoreInt32(&e.closedLocally, 1)
-				e.mustNotFlush("right after Close returned", false)
+				if e.cb == nil {
+					e.mustNotFlush("right after Close returned", false)
+				}
+				// with callbacks the Close may have been deferred to a callback goroutine that finishes it at any moment; a Flush
+				// attempted now would make the harness a writer concurrent with the library's own cleanup of the send buffer
+				// (see the report: that combination can crash). The deferral interval is checked where it is well defined:
+				// inside OnData and with OnData parked (user-during-ondata).
 			}(e, h)
 		}
 		if sc.When == "inflight" && !x.fresh {
@@ -1413,26 +1415,40 @@ func clsRun(c *checkCtx, sc clsScenario, timing int) *clsExec {
 	checkLocal := func(e *clsEnd, why string) {
 		done := func() bool { return e.st.getStreamState() == uint32(streamClosed) && !e.inTable() }
 		if e.cb == nil {
-			// no callbacks: Close does everything before it returns
+			// no callbacks: Close does everything before it returns (every Close call issued has returned by now)
 			if !done() {
 				x.violate("end %s: after Close returned (%s) the stream is in state %s and %s the session table (active streams %d)",
 					e.name, why, clsStateName(e.st.getStreamState()), map[bool]string{true: "still in", false: "not in"}[e.inTable()], e.sess.GetActiveStreamCount())
 				return
 			}
-		} else if !x.eventually(fmt.Sprintf("end %s: the (possibly deferred) local close completes: state closed and stream removed from the session's table of active streams (%s)", e.name, why), done) {
+			completed[e.name] = true
+			e.observeState("close completed")
+			e.mustNotFlush("after the local close completed", false)
+			e.mustNotRead("after the local close completed")
+			return
+		}
+		if !x.eventually(fmt.Sprintf("end %s: the (possibly deferred) local close completes: state closed and stream removed from the session's table of active streams (%s)", e.name, why), done) {
 			return
 		}
 		completed[e.name] = true
 		e.observeState("close completed")
-		if e.cb != nil {
-			// nobody else uses the receive buffer once the callback goroutine is gone
-			if !waitUntil(x.watchdog, e.cbIdle) {
-				x.inconclusive("end %s: callback goroutine still running after the close completed", e.name)
-				return
-			}
+		// exactly one close callback is due; OnLocalClose is also the only signal that a deferred close has finished its cleanup
+		if !x.eventually(fmt.Sprintf("end %s: one of OnLocalClose/OnRemoteClose is called for the closure (%s)", e.name, why),
+			func() bool { return atomic.LoadInt32(&e.cb.nLocal)+atomic.LoadInt32(&e.cb.nRemote) > 0 }) {
+			return
 		}
-		e.mustNotFlush("after the local close completed", false)
-		e.mustNotRead("after the local close completed")
+		if atomic.LoadInt32(&e.cb.nLocal) == 0 {
+			// the end already knew of the closure (OnRemoteClose came first): a deferred close then ends silently, so the moment its
+			// cleanup is over cannot be observed at the API; operations issued now could overlap that cleanup
+			c.count("post-completion Flush/Read checks skipped (deferred close of an already known closure has no completion signal)", 1)
+			return
+		}
+		if !waitUntil(x.watchdog, e.cbIdle) {
+			x.inconclusive("end %s: callback goroutine still running after OnLocalClose", e.name)
+			return
+		}
+		e.mustNotFlush("after the local close completed (OnLocalClose fired)", false)
+		e.mustNotRead("after the local close completed (OnLocalClose fired)")
 	}
 	for _, e := range clsSortedEnds(x.ends) {
 		if atomic.LoadInt32(&e.closedLocally) == 1 {
@@ -1534,13 +1550,13 @@ func clsRun(c *checkCtx, sc clsScenario, timing int) *clsExec {
 		if e.cb == nil {
 			continue
 		}
-		l, r := atomic.LoadInt32(&e.cb.nLocal), atomic.LoadInt32(&e.cb.nRemote)
-		switch {
-		case l+r == 0 && !x.eventually(fmt.Sprintf("end %s: one of OnLocalClose/OnRemoteClose is called for the closure (Close calls returned: %d)", e.name, atomic.LoadInt32(&e.closeReturned)),
-			func() bool { return atomic.LoadInt32(&e.cb.nLocal)+atomic.LoadInt32(&e.cb.nRemote) > 0 }):
-		case l+r == 0 && false:
-			x.violate("end %s: neither OnLocalClose nor OnRemoteClose was called although the stream was closed (Close calls returned: %d)", e.name, atomic.LoadInt32(&e.closeReturned))
-		case l+r > 1:
+		if atomic.LoadInt32(&e.cb.nLocal)+atomic.LoadInt32(&e.cb.nRemote) == 0 {
+			// the callback is the last step of the closing goroutine: give it its bounded time before calling it missing
+			x.eventually(fmt.Sprintf("end %s: one of OnLocalClose/OnRemoteClose is called for a closure the end did not know about (Close calls returned: %d)",
+				e.name, atomic.LoadInt32(&e.closeReturned)),
+				func() bool { return atomic.LoadInt32(&e.cb.nLocal)+atomic.LoadInt32(&e.cb.nRemote) > 0 })
+		}
+		if l, r := atomic.LoadInt32(&e.cb.nLocal), atomic.LoadInt32(&e.cb.nRemote); l+r > 1 {
 			x.violate("end %s: close callbacks fired %d times (OnLocalClose %d, OnRemoteClose %d)", e.name, l+r, l, r)
 		}
 	}
@@ -1728,7 +1744,7 @@ func clsStorm(c *checkCtx, round int, streams int) (res clsStormResult) {
 
 func checkClose(c *checkCtx) {
 	table := clsScenarioTable()
-	timings := c.pick(4, 200)
+	timings := c.pick(3, 150)
 	c.rule = fmt.Sprintf("enumerated scenario table (%d scenarios: closer x when x mode x from-where x transport, invalid combinations removed) x %d PRNG timings "+
 		"(message sizes, delays, blocked reader, fresh stream, background traffic, queue capacity, perturbation profile from PRNG(VERIF_SEED, scenario, timing)); "+
 		"one fresh session pair per execution; non-trivial = the execution had at least one foreign hook transition inside a close/callback-exit window "+
